@@ -5,7 +5,7 @@
 EXTENDS JetProg
 CONSTANTS Depth, Families     \* Families: subset of {"site", "top"}
 
-Ops == {"Let-s", "Let-x3", "Set-s", "Set-p", "Set-undef", "SetOrLet-s", "SetOrLet-x3", "SetOrLet-g", "SetOrLet-p", "LetGlobal-x3", "LetGlobal-s", "Yield-yc", "Yield-ycdef", "SetOrLet-nil", "Set-undef-nil",
+Ops == {"Let-s", "Let-x3", "Set-s", "Set-p", "Set-undef", "SetOrLet-s", "SetOrLet-x3", "SetOrLet-g", "SetOrLet-p", "LetGlobal-x3", "LetGlobal-s", "Yield-yc", "Yield-ycdef", "SetOrLet-nil", "Set-undef-nil", "Exec-own",
         "Resolve-s", "Resolve-g", "Resolve-undef", "Context", "Yield-ctx", "Yield-noctx", "Yield-undef", "tl-let", "tl-set"}
 SiteKinds == {"range", "rangekv", "ycont", "ybody", "include", "includectx", "iflet", "let", "blockdef", "tryin"}
 
@@ -35,6 +35,9 @@ OpStmt(o, i) ==
     [] o = "Yield-yc"     -> Api(id, "YieldBlock", "aby", NoE)
     \* ... also when the block declares a {{content}} section of its own (that one is for its definition site only)
     [] o = "Yield-ycdef"  -> Api(id, "YieldBlock", "abyc", NoE)
+    \* exec() of a template that has a block "ab" of its own, outside any := - what YieldBlock("ab") renders afterwards
+    \* is still the block visible at the call site
+    [] o = "Exec-own"     -> IsSetExec(id, "calown")
     [] o = "Yield-undef"  -> Api(id, "YieldBlock", "nosuchblock", NoE)
     [] o = "tl-let"       -> LetS(id, "x3", Lit("T" \o ToString(i)))
     [] o = "tl-set"       -> SetS(id, "s", Lit("T" \o ToString(i)))
@@ -66,7 +69,8 @@ MkC(par) ==
       lib   == Tm("lib", "", <<>>, r.bl \o <<BlockS("abd", "ab", <<>>, NoE, <<T("AB("), P("abc", Ctx), P("abs", Var("s")), T(")")>>),
                                         BlockS("abyd", "aby", <<>>, NoE, <<T("ABY("), YContent("abyy"), T(")")>>),
                                         BlockC("abycd", "abyc", <<>>, NoE, <<T("ABYC("), YContent("abycy"), T(")")>>, <<T("DEFAULT")>>)>>)
-  IN [ts |-> <<Tm("main", "", <<"lib">>, main), lib>> \o r.ts,
+      calown == Tm("calown", "", <<>>, <<T("co0"), BlockS("cob", "ab", <<>>, NoE, <<T("CALAB")>>), T("co1")>>)
+  IN [ts |-> <<Tm("main", "", <<"lib">>, main), lib, calown>> \o r.ts,
       globals |-> [NoVarsMap EXCEPT !["g"] = "glG"],
       \* the second execution has no data: '.' is invalid at the call site and must be so again after the call
       runs |-> <<RunR("main", [NoVarsMap EXCEPT !["p"] = "vmP"], "D"), RunR("main", [NoVarsMap EXCEPT !["p"] = "vmP"], Nil)>>,
